@@ -9,6 +9,7 @@ The oracle is before/after equality of the raw observations around every context
 import fcntl
 import struct
 import io
+import re
 import os
 import signal
 import termios
@@ -30,7 +31,7 @@ PROP = "C12"
 MODULES = ["Curtsies.Properties.C12"]
 RULE = ("scripts = trees of contexts (Input with every sigint_event x disable_terminal_start_stop, FullscreenWindow(hide_cursor), "
         "CursorAwareWindow(hide_cursor, keep_last_line), Cbreak, Nonblocking, Termmode(attrs)), nested up to depth 3 and repeated, "
-        "bodies of <= 4 operations (renders on terminals resized to 0x0 / 0 rows / 0 columns / normal; requests returning without/with a read, raising after the read, interrupted by a real SIGINT "
+        "bodies of <= 4 operations (requests reading a paste whose top-up read finds nothing / an empty read at EOF; renders on terminals resized to 0x0 / 0 rows / 0 columns / normal; requests returning without/with a read, raising after the read, interrupted by a real SIGINT "
         "while blocked in select; renders; trigger creation incl. threadsafe) truncated by an exception at any position; initial "
         "tty attributes (ECHO/ICANON/ISIG/IEXTEN/IXON/ICRNL/OPOST toggles, VMIN/VTIME/VSTOP/VSTART), initial O_NONBLOCK/O_APPEND, "
         "initial SIGINT handler (default_int_handler, SIG_DFL, SIG_IGN, user function), re-use of the same object after an environment "
@@ -240,10 +241,14 @@ def gen_body(r, depth, inp_se, hstate, main, budget, canon_risk=False, has_win=F
             toks.append(")")
         elif x < 0.65 and in_input:
             k = r.random()
-            if k < 0.35:
+            if k < 0.3:
                 toks.append("q0")
-            elif k < 0.7:
+            elif k < 0.55:
                 toks.append("q1")
+            elif k < 0.65:
+                toks.append("q4")
+            elif k < 0.7:
+                toks.append("q5")
             elif k < 0.85:
                 return toks + ["q2", "#raised"]
             elif main and inp_se:
@@ -349,6 +354,14 @@ def corpus_cases():
             out.append(dict(base, main=1, sig0="d", toks=[top, "r", "R%d" % k, ")"]))
     out.append(dict(base, main=1, sig0="d", toks=["(F0", "(I00", "R1", ")", ")"]))
     out.append(dict(base, main=1, sig0="d", toks=["(I00", "(C00", "R1", ")", ")"]))
+    # requests that read a paste (the top-up read hits BlockingIOError) / get an empty read (EOF), every Input flag combination,
+    # left normally and by exception: status flags identical afterwards, never non-blocking between requests
+    for top in ("(I00", "(I01", "(I10", "(I11"):
+        for q in ("q4", "q5"):
+            for tail in ([], ["!"], ["q0"], [q, "q1"]):
+                out.append(dict(base, main=1, sig0="d", toks=[top, q] + tail + [")"]))
+        out.append(dict(base, main=0, sig0="d", toks=[top, "q4", "q5", ")"]))
+        out.append(dict(dict(base, nonblock0=1), main=1, sig0="d", toks=[top, "q4", ")"]))
     # renders (0..2) on terminals of every size, in both window classes, both hide_cursor values, left normally / by exception:
     # the cursor must be visible after leaving (seeded C12-r4m1: an early return on a 0-size terminal skips normal_cursor)
     for top in ("(F0", "(F1", "(C00", "(C10", "(C01", "(C11"):
@@ -498,30 +511,35 @@ class Runner:
         self.term_cache[term] = v
         return v
 
+    MODE_RE = re.compile(r"\x1b\[\?([0-9;]*)([hl])")          # DEC private mode set / reset
+    QUIET_RE = re.compile(r"\x1b\[6n|\x1b\[2[23];[0-9]*;[0-9]*t|\x1b[78]")   # cursor report query, title stack, save/restore cursor
+
     def screen_state(self):
-        """interpret the window output so far: (cursor visible, alternate screen active, main-screen writes, per-window log)"""
-        t = self.t_strings
+        """Interpret the window output so far by TOKENISING it (not by matching blessed's capability strings):
+        DECTCEM (?25 h/l) is the cursor, ?1049 / ?1047 / ?47 h/l the alternate screen, whatever combination they come in
+        (ESC[?25h alone, ESC[?12l ESC[?25h, ESC[?12;25h ...); everything that is neither a mode switch nor a pure query is
+        output that lands on the screen.  -> (cursor visible, alternate screen active, writes that reached the main screen)"""
         s = self.out.getvalue()
         cur, alt, main_writes = True, False, 0
         i = 0
-        modes = [(t["hide"], "hide"), (t["show"], "show"), (t["alt_on"], "alt_on"), (t["alt_off"], "alt_off"), ("\x1b[6n", "dsr")]
         while i < len(s):
-            for pat, name in modes:
-                if pat and s.startswith(pat, i):
-                    if name == "hide":
-                        cur = False
-                    elif name == "show":
-                        cur = True
-                    elif name == "alt_on":
-                        alt = True
-                    elif name == "alt_off":
-                        alt = False
-                    i += len(pat)
-                    break
-            else:
-                if not alt:
-                    main_writes += 1
-                i += 1
+            m = self.MODE_RE.match(s, i)
+            if m:
+                on = m.group(2) == "h"
+                for p in m.group(1).split(";"):
+                    if p == "25":
+                        cur = on
+                    elif p in ("1049", "1047", "47"):
+                        alt = on
+                i = m.end()
+                continue
+            m = self.QUIET_RE.match(s, i)
+            if m:
+                i = m.end()
+                continue
+            if not alt:
+                main_writes += 1
+            i += 1
         return cur, alt, main_writes
 
     def snapshot(self):
@@ -625,6 +643,28 @@ class Runner:
         elif tok == "q2":
             os.write(self.master, b"\xe2\x82")
             inp.send(0.5)
+        elif tok == "q4":
+            # a burst above the paste threshold: first read gets it, the paste loop's top-up read finds the pty empty
+            # (BlockingIOError inside `with Nonblocking`) - the stream must be blocking again afterwards
+            os.write(self.master, b"abcdefghijklmnop"[:max(cevents.MAX_KEYPRESS_SIZE + 2, (inp.paste_threshold or 8) + 2)])
+            got = inp.send(0.5)
+            if not isinstance(got, cevents.PasteEvent):
+                self.asserts.append("q4: a burst above the paste threshold came back as %r, not a paste event" % (got,))
+        elif tok == "q5":
+            # the stream is readable but the read returns nothing (end of file): the Input's stream is, for this one request,
+            # the read end of a pipe whose writer is closed; afterwards that descriptor must not be left non-blocking either
+            pr, pw = os.pipe()
+            os.close(pw)
+            keep, self.in_stream.fd = self.in_stream.fd, pr
+            try:
+                got = inp.send(0.5)
+                if got is not None:
+                    self.asserts.append("q5: request at end of file returned %r" % (got,))
+                if fcntl.fcntl(pr, fcntl.F_GETFL) & os.O_NONBLOCK:
+                    self.asserts.append("q5: after the request the stream it read from is left in non-blocking mode")
+            finally:
+                self.in_stream.fd = keep
+                os.close(pr)
         elif tok == "q3":
             pid = os.getpid()
             th = threading.Timer(0.03, lambda: os.kill(pid, signal.SIGINT))
